@@ -11,11 +11,19 @@
 pub mod src;
 pub use src::*;
 
+pub mod c12;
+pub mod c13;
 pub mod c14;
+pub mod c16;
+pub mod c19;
 
 /// name -> native entry point, used by the replay binary
 pub fn registry() -> Vec<(&'static str, fn(&mut BytesSrc))> {
     let mut v: Vec<(&'static str, fn(&mut BytesSrc))> = Vec::new();
+    c12::register(&mut v);
+    c13::register(&mut v);
+    c16::register(&mut v);
+    c19::register(&mut v);
     c14::register(&mut v);
     v
 }
